@@ -14,7 +14,7 @@ demo() {  # $1 = seed dir ; prints exit code
   for c in run.sh demo.sh run_demo.sh check_all.sh; do [ -f "$d/$c" ] && s="$c" && break; done
   if [ -z "$s" ] && [ -f "$d/check.sh" ]; then ( cd "$d" && timeout 600 bash ./check.sh "$WT/_b/bin/bloch" >${WTROOT:-/tmp/wt}/confirm_${PROP}_$(basename $d).log 2>&1 ); echo $?; return; fi
   if [ -z "$s" ]; then echo "nodemo"; return; fi
-  ( cd "$d" && timeout 1500 bash "./$s" >${WTROOT:-/tmp/wt}/confirm_${PROP}_$(basename $d).log 2>&1 ); echo $?
+  ( cd "$d" && timeout 1500 bash "./$s" "$WT/_b/bin/bloch" >${WTROOT:-/tmp/wt}/confirm_${PROP}_$(basename $d).log 2>&1 ); echo $?
 }
 build
 echo "$PROP clean: tests='$(tests)'"
